@@ -333,3 +333,41 @@ def replay_in_fresh_process(modname, fname, src, payload):
         if line.startswith("@@"):
             return json.loads(line[2:])
     return {"error": (p.stderr or p.stdout)[-2000:]}
+
+
+def degenerate_system(g, names, kind=None):
+    """terms of a FEASIBLE system without interior - what a solver run with very tight tolerances tends to call infeasible -
+    and an integer point in it. kinds: 'equality' (one equality a.v = c with a constant of 1e5..1e6, written as two opposite
+    terms), 'redundant_equalities' (n+1 consistent equalities in n unknowns), 'touching' (two half-spaces with one common
+    boundary point on an axis-parallel segment), 'halfplanes' (opposite half-planes sharing their boundary)"""
+    r = g.r
+    kind = kind or r.choice(["equality", "redundant_equalities", "touching", "halfplanes"])
+    names = list(names)[: max(2, min(len(names), 3))] if len(names) >= 2 else list(names) + ["dg_y"]
+    big = kind in ("equality", "halfplanes")
+    pt = {n: r.randint(-1000, 1000) if big else r.randint(-60, 60) for n in names}
+
+    def row(lim):
+        co = {n: r.choice([-1, 1]) * r.randint(1, lim) for n in names}
+        return co, sum(co[n] * pt[n] for n in names)
+
+    terms = []
+    if kind in ("equality", "halfplanes"):
+        co, c = row(1000)
+        terms = [g.PT({g.Var(n): float(v) for n, v in co.items()}, float(c)), g.PT({g.Var(n): -float(v) for n, v in co.items()}, -float(c))]
+        if r.random() < 0.5:
+            terms.reverse()
+    elif kind == "redundant_equalities":
+        for _ in range(len(names) + r.randint(1, 2)):
+            co, c = row(100)
+            terms += [g.PT({g.Var(n): float(v) for n, v in co.items()}, float(c)), g.PT({g.Var(n): -float(v) for n, v in co.items()}, -float(c))]
+    else:
+        # two wedges that meet exactly in pt
+        n0 = names[0]
+        for sgn in (1, -1):
+            for _ in range(2):
+                co = {n: r.choice([-1, 1]) * r.randint(1, 100) for n in names[1:]}
+                co[n0] = sgn * r.randint(1, 1000)
+                c = sum(co[n] * pt[n] for n in names)
+                terms.append(g.PT({g.Var(n): float(v) for n, v in co.items()}, float(c)))
+            terms.append(g.PT({g.Var(n0): float(sgn)}, float(sgn * pt[n0])))
+    return kind, terms, {n: float(v) for n, v in pt.items()}
